@@ -275,7 +275,7 @@ pub fn run_c08(env: &Env, tier: &str) -> i32 {
 
 pub fn run_c05(env: &Env, tier: &str) -> i32 {
     let t0 = std::time::Instant::now();
-    let units = vmodel::cf::c05_units();
+    let units = vmodel::cf::c05_units(env.seed, tier == "thorough");
     let res = match cf::verdicts(env, &env.work.join("gen/c05"), "c05", &units, false, false) {
         Ok(r) => r,
         Err(e) => {
@@ -285,7 +285,7 @@ pub fn run_c05(env: &Env, tier: &str) -> i32 {
     };
     let (mut viols, drift) = judge_with_drift("C05", &units, &res);
     // structural invariant over every function of every expansion
-    let (structural, sviols) = match crate::expand::structural_scan(env, &res) {
+    let (structural, sviols) = match crate::expand::structural_scan(env, &res, &units) {
         Ok(x) => x,
         Err(e) => {
             eprintln!("INCONCLUSIVE: expansion scan failed: {e}");
